@@ -220,6 +220,13 @@ def rule_magnitude(ctx: Ctx) -> None:
             ctx.add("2-magnitude", fn, c, not involved,
                     f"{what} on converted magnitudes" if not involved else f"{what} orders the str-typed quantity `{involved[0]}` as text ('2:00:00' > '10:00:00', '9GB' > '10GB')", key=norm(c)[:120])
     ctx.floor("2-magnitude", n, 1)
+    for conv in ("_convert_to_gb", "_convert_to_seconds"):
+        f = ctx.prog.maybe_func(f"{MOD}.Resources.{conv}")
+        if f is None:
+            continue
+        lossy = [c for c in ast.walk(f.node) if (isinstance(c, ast.Call) and dotted(c.func) in ("round", "math.floor", "math.ceil", "math.trunc", "floor", "ceil")) or (isinstance(c, ast.BinOp) and isinstance(c.op, ast.FloorDiv))]
+        ctx.add("2-magnitude", f, lossy[0] if lossy else f.node, not lossy, f"{conv} is lossless (no rounding)" if not lossy else
+                f"`{norm(lossy[0])[:50]}` rounds inside {conv}: different quantities compare equal, so combine_max can return less than an operand", key=f"lossless {conv}")
     # converters exist and are numeric
     for conv, unit in (("_convert_to_gb", "memory"), ("_convert_to_seconds", "time")):
         f = ctx.prog.maybe_func(f"{MOD}.Resources.{conv}")
@@ -377,6 +384,7 @@ MUTANTS = [
            '            if resources.time is not None:\n                max_data["time"] = (\n                    resources.time\n                    if max_data["time"] is None\n                    else max(max_data["time"], resources.time)\n                )\n',
            ("C20.2-magnitude",), why="original F30"),
     Mutant("memory-as-text", F, "                if current_memory_gb > max_memory_gb:\n", '                if max_data["memory"] is None or resources.memory > max_data["memory"]:\n', ("C20.2-magnitude",)),
+    Mutant("memory-rounded", F, "            return float(value) * units[unit]\n", "            return round(float(value) * units[unit], 3)\n", ("C20.2-magnitude",), why="seeded C20/2"),
     Mutant("gpus-min", F, 'else max(max_data["gpus"], resources.gpus)', 'else min(max_data["gpus"], resources.gpus)', ("C20.3-covers",)),
     Mutant("memory-smaller-wins", F, "                if current_memory_gb > max_memory_gb:\n", "                if current_memory_gb < max_memory_gb:\n", ("C20.3-covers",)),
     Mutant("time-arm-dropped", F,
